@@ -8,6 +8,10 @@ META_EXCLUDE.add('node_call_id')
 META_EXCLUDE.add('node_sock')
 META_EXCLUDE.add('node_without_result')
 META_EXCLUDE.add('success_channels')
+# set and read by the dispatcher (completion tracking) outside of its try block
+META_EXCLUDE.add('complete_channels')
+META_EXCLUDE.add('cause')
+META_EXCLUDE.add('effects')
 
 
 def _dumps(data):
@@ -28,6 +32,7 @@ def load_event(s):
     e.failure = bool(data['failure'])
     e.notify = bool(data['notify'])
     e.channels = tuple(data['channels'])
+    hash(e.channels)  # TypeError: a channel that cannot be a handler-cache key
 
     for k, v in dict(data['meta']).items():
         if k.startswith('__') or k in META_EXCLUDE:
